@@ -101,7 +101,7 @@ CATALOGUE = [
      'old': "                for _ in range(len(self._groups) + 1 - MAXIMUM_NUMBER_OF_CACHED_TABLE_GROUPS):\n                    self._groups.popitem()\n",
      'new': "                for _ in range(len(self._groups) + 1 - MAXIMUM_NUMBER_OF_CACHED_TABLE_GROUPS):\n                    _k, _stale = self._groups.popitem()\n"
             "                if len(self._groups) == 0 and _k.wmo_tables_sn[:2] == table_group_key.wmo_tables_sn[:2]:\n"
-            "                    self._groups[table_group_key] = _stale\n",
+            "                    self._groups[table_group_key] = _stale\n                    return _stale\n",
      'note': 'after evicting down to an empty cache the evicted group is re-used for the new key'},
     {'id': 'm-c13-wire-flag-never-set', 'props': ['C13'], 'file': TD,
      'old': "        if self._is_wired:\n            return\n        else:\n            self._is_wired = True\n",
@@ -118,7 +118,8 @@ CATALOGUE = [
     {'id': 'm-c13-normalize-memo-ignores-root', 'props': ['C13'], 'file': T,
      'old': "        if normalize:\n            wmo_tables_sn, local_tables_sn = normalize_tables_sn(\n                tables_root_dir,",
      'new': "        if normalize:\n            wmo_tables_sn, local_tables_sn = normalize_tables_sn(\n                DEFAULT_TABLES_DIR if cls._TABLE_GROUP_CACHE._groups else tables_root_dir,",
-     'note': 'table version normalisation looks at the default root once anything is cached'},
+     'note': 'table version normalisation looks at the default root once anything is cached (visible only with a '
+             'second tables root that lacks some versions)'},
     # ---- C08
     {'id': 'm-c08-key-without-table-group', 'props': ['C08'], 'file': TC,
      'old': "            tuple(template.original_descriptor_ids),\n            table_group.key,\n",
